@@ -59,7 +59,7 @@ type c31Live struct {
 // c31Frame is the compact, comparable form of c31Live (all values are in
 // [-128,127] for every state that passed the range check).
 type c31Frame struct {
-	E, S, UE, US, Sp                      int8
+	E, S, UE, US, Sp                       int8
 	entE, entS, burnt, fwd, fwdS, stR, stX int8
 }
 
@@ -582,19 +582,16 @@ func c31Bounds(r *mc.R) {
 
 func TestVerif_C31(t *testing.T) {
 	mc.Run(t, "C31", func(r *mc.R) {
-		maxInit := mc.Pick(r, 4, 5)
-		maxCost := mc.Pick(r, 3, 3)
-		maxDepth := mc.Pick(r, 3, 3)
+		type bfsCfg struct{ N, K, D int }
+		cfgs := mc.Pick(r, []bfsCfg{{4, 3, 3}}, []bfsCfg{{5, 3, 3}, {4, 3, 4}})
 		r.Rule("explicit-state BFS: state = call stack of <=D frames of real vm.GasBudget values (+ledger model, frame entry values); " +
-			"initial budgets (E,S) in [0..N]^2; transitions on the top frame: Charge(e,s) e,s in 0..K (through Charge, charge, " +
+			"initial budgets (E,S) in [0..N]^2 (configs N/K/D in bounds); transitions on the top frame: Charge(e,s) e,s in 0..K (through Charge, charge, " +
 			"ChargeExecutionOnly/ChargeExecution/ChargeState, CanAfford), RefundState(r) r in 1..K with r <= live state gas of the tx, DrainExecution, " +
 			"Forward(x) for every x <= ExecutionGas (+ForwardAll, +CALL-style forwarding), Exit{Success,Revert,Halt}(+Exit(err)) followed by Absorb " +
 			"into the caller (at depth 1: terminal transaction-level check); all reachable states are expanded once (de-duplicated on all " +
 			"implementation fields and entry values of all frames); distinct = distinct states; plus a boundary grid of Charge/CanAfford/" +
 			"RefundState/exits on values up to 2^63-1 against exact (math/big) arithmetic")
-		r.Bound("N_max_initial_E_and_S", maxInit)
-		r.Bound("K_max_cost", maxCost)
-		r.Bound("D_max_frames", maxDepth)
+		r.Bound("configs_N_initial_K_cost_D_frames", fmt.Sprint(cfgs))
 		r.Assume("gas quantities are at most 2^63-1 (block gas limit bound params.MaxGasLimit), so int64(UsedStateGas) conversions are exact")
 		r.Assume("RefundState(r) is only issued for state gas charged earlier in the same transaction by a frame whose effects are still live " +
 			"(r <= sum of UsedStateGas over the call stack), as the EVM does (SSTORE 0->x->0, account-creation refill)")
@@ -623,6 +620,15 @@ func TestVerif_C31(t *testing.T) {
 
 		c31Bounds(r)
 
+		for _, cfg := range cfgs {
+			c31BFS(r, fmt.Sprintf("N%dK%dD%d", cfg.N, cfg.K, cfg.D), cfg.N, cfg.K, cfg.D)
+		}
+	})
+}
+
+// c31BFS explores all states reachable from the initial budgets [0..maxInit]^2 breadth first.
+func c31BFS(r *mc.R, tag string, maxInit, maxCost, maxDepth int) {
+	{
 		type meta struct {
 			parent int32
 			op     c31Op
@@ -751,7 +757,7 @@ func TestVerif_C31(t *testing.T) {
 					idx := add(s.st, s.parent, s.op)
 					if int(idx) == before {
 						r.State(1)
-						r.DistinctHash(mc.Hash64(fmt.Sprint(s.st)))
+						r.DistinctHash(mc.Hash64(tag + fmt.Sprint(s.st)))
 						if int(s.st.n) > maxStackSeen {
 							maxStackSeen = int(s.st.n)
 						}
@@ -765,13 +771,14 @@ func TestVerif_C31(t *testing.T) {
 			level++
 		}
 		if nviol >= 40 {
-			r.Bound("stopped_after_violations", nviol)
+			r.Bound(tag+".stopped_after_violations", nviol)
 		}
-		r.Bound("bfs_levels_completed", level)
-		r.Bound("frontier_empty", lo >= len(states))
-		r.Bound("max_stack_reached", maxStackSeen)
+		r.Bound(tag+".bfs_levels_completed", level)
+		r.Bound(tag+".frontier_empty", lo >= len(states))
+		r.Bound(tag+".max_stack_reached", maxStackSeen)
+		r.Bound(tag+".states", len(states))
 		if lo < len(states) && !r.Expired() && nviol < 40 {
 			r.NotExhaustive("bfs stopped early")
 		}
-	})
+	}
 }
